@@ -38,6 +38,7 @@ func (c *ocodeClient) Emit(line string) error {
 	if err != nil {
 		return err
 	}
+	ocode.BitMode = c.bitMode // the mode in force now, not the one in force when code is generated
 	c.Ocodes = append(c.Ocodes, ocode)
 	return nil
 }
@@ -97,6 +98,7 @@ func (c *ocodeClient) SetSymbolTable(symTable map[string]int32) {
 
 // SetBitMode メソッドの実装
 func (c *ocodeClient) SetBitMode(mode cpu.BitMode) { // Change cpu.BitMode to cpu.BitMode
+	c.bitMode = mode
 	c.ctx.BitMode = mode
 }
 
